@@ -439,6 +439,195 @@ def bsearch (cmp : κ → α → Int) (key : κ) (a : List α) : Option (Option 
 
 end bsearch
 
+/-! ## upper_bound / lower_bound (bsearch.c, repaired: both bisect the
+half-open range `[left, right)` and return `left`)
+
+```
+char *left = base, *right = base + size * nmemb, *mid;
+while (left < right) {
+    mid = left + ((right - left) / (size << 1) * size);
+    if (compar(key, mid) < 0)   // lower_bound: <= 0
+        right = mid;
+    else
+        left = mid + size;
+}
+return left;
+```
+`(right - left) / (size << 1) * size` is `((right - left) / size) / 2` elements
+(`right - left` is a multiple of `size`). -/
+
+section bounds
+variable {α : Type}
+
+/-- the loop on element indices; `goLeft x` is the test `compar(key, mid) < 0`
+(resp. `<= 0`).  `none` = an access outside the array, or the fuel ran out. -/
+def bndLoop (goLeft : α → Bool) (a : List α) : Nat → Nat → Nat → Option Nat
+  | 0, _, _ => none
+  | f + 1, left, right =>
+    if left < right then
+      let mid := left + (right - left) / 2
+      match a[mid]? with
+      | none => none
+      | some x => if goLeft x then bndLoop goLeft a f left mid else bndLoop goLeft a f (mid + 1) right
+    else some left
+
+/-- `upper_bound(key, base, nmemb, size, compar)`: the result as an element
+index (`nmemb` = the one-past-the-end pointer) -/
+def upperBound {κ : Type} (cmp : κ → α → Int) (key : κ) (a : List α) : Option Nat :=
+  bndLoop (fun x => decide (cmp key x < 0)) a (a.length + 1) 0 a.length
+
+/-- `lower_bound(key, base, nmemb, size, compar)` -/
+def lowerBound {κ : Type} (cmp : κ → α → Int) (key : κ) (a : List α) : Option Nat :=
+  bndLoop (fun x => decide (cmp key x ≤ 0)) a (a.length + 1) 0 a.length
+
+end bounds
+
+/-! ## errno (the strto* family once more, with the store to `errno`)
+
+The result gets a third component: what the call stores in `errno`, `0` =
+nothing is stored (the caller's value stays).  strtol.c / strtoimax.c
+(repaired) and strtoul.c / strtoumax.c store after the loop, from `any`;
+strtoll.c / strtoull.c store inside the loop at the moment overflow is
+detected.  strtoul/strtoumax also store EINVAL when no conversion is performed
+(POSIX "may fail"; ISO C does not ask for it). -/
+
+def ERANGE : Nat := 34
+def EINVAL : Nat := 22
+
+/-- strtol.c, strtoimax.c: `if (any < 0) { acc = neg ? LONG_MIN : LONG_MAX; errno = ERANGE; }` -/
+def strtoSUe (w : Nat) (R : Reads) (mem : List Byte) (base : Nat) : Option (Int × Nat × Nat) :=
+  match front R mem base with
+  | none => none
+  | some f =>
+    let W := 2 ^ w
+    let H := 2 ^ (w - 1)
+    let cutoff0 := if f.neg then H else H - 1
+    let cutlim : Int := ((cutoff0 % f.base : Nat) : Int)
+    let cutoff := cutoff0 / f.base
+    match loopU W f.base cutoff cutlim R.lp none f.rest f.c f.off (0, 0) with
+    | none => none
+    | some (acc, any, off) =>
+      let err := if any < 0 then ERANGE else 0
+      let acc := if any < 0 then (if f.neg then H else H - 1) else if f.neg then (W - acc) % W else acc
+      some (asSigned w acc, endOff any off, err)
+
+/-- strtoul.c, strtoumax.c: `SET_ERRNO(ERANGE)` / `SET_ERRNO(EINVAL)` -/
+def strtoUUe (w : Nat) (R : Reads) (mem : List Byte) (base : Nat) : Option (Nat × Nat × Nat) :=
+  match front R mem base with
+  | none => none
+  | some f =>
+    let W := 2 ^ w
+    let cutoff := (W - 1) / f.base
+    let cutlim : Int := (((W - 1) % f.base : Nat) : Int)
+    match loopU W f.base cutoff cutlim R.lp none f.rest f.c f.off (0, 0) with
+    | none => none
+    | some (acc, any, off) =>
+      let err := if any < 0 then ERANGE else if any = 0 then EINVAL else 0
+      let acc := if any < 0 then W - 1 else if any = 0 then acc else if f.neg then (W - acc) % W else acc
+      some (acc, endOff any off, err)
+
+/-- the store `errno = ERANGE` of one pass of the loop body (same tests as `stepU`) -/
+def errU (cutoff : Nat) (cutlim : Int) (st : Nat × Int) (d : Int) (e : Nat) : Nat :=
+  if st.2 < 0 then e
+  else if st.1 > cutoff ∨ (st.1 = cutoff ∧ d > cutlim) then ERANGE
+  else e
+
+/-- `loopU` with `errno` threaded through — returns `(acc, any, s - nptr, errno)` -/
+def loopUe (W base cutoff : Nat) (cutlim : Int) (lp : Bool) (ovf : Option Nat) :
+    List Byte → Int → Nat → Nat × Int → Nat → Option (Nat × Int × Nat × Nat)
+  | rest, c, off, st, e =>
+    match digitOf c with
+    | none => some (st.1, st.2, off, e)
+    | some d =>
+      if d ≥ (base : Int) then some (st.1, st.2, off, e)
+      else
+        match rest with
+        | [] => none
+        | b :: rest' =>
+          loopUe W base cutoff cutlim lp ovf rest' (rd lp b) (off + 1) (stepU W base cutoff cutlim ovf st d)
+            (errU cutoff cutlim st d e)
+
+/-- strtoull.c: `any = -1; acc = ULLONG_MAX; errno = ERANGE;` inside the loop -/
+def strtoULLe (w : Nat) (R : Reads) (mem : List Byte) (base : Nat) : Option (Nat × Nat × Nat) :=
+  match front R mem base with
+  | none => none
+  | some f =>
+    let W := 2 ^ w
+    let cutoff := (W - 1) / f.base
+    let cutlim : Int := (((W - 1) % f.base : Nat) : Int)
+    match loopUe W f.base cutoff cutlim R.lp (some (W - 1)) f.rest f.c f.off (0, 0) 0 with
+    | none => none
+    | some (acc, any, off, err) =>
+      let acc := if f.neg ∧ any > 0 then (W - acc) % W else acc
+      some (acc, endOff any off, err)
+
+/-- the store `errno = ERANGE` of one pass of strtoll's loop body -/
+def errS (neg : Bool) (cutoff cutlim : Int) (st : Int × Int) (d : Int) (e : Nat) : Nat :=
+  if st.2 < 0 then e
+  else if neg then (if st.1 < cutoff ∨ (st.1 = cutoff ∧ d > cutlim) then ERANGE else e)
+  else (if st.1 > cutoff ∨ (st.1 = cutoff ∧ d > cutlim) then ERANGE else e)
+
+def loopSe (MIN MAX : Int) (base : Int) (neg : Bool) (cutoff cutlim : Int) (lp : Bool) :
+    List Byte → Int → Nat → Int × Int → Nat → Option (Int × Int × Nat × Nat)
+  | rest, c, off, st, e =>
+    match digitOf c with
+    | none => some (st.1, st.2, off, e)
+    | some d =>
+      if d ≥ base then some (st.1, st.2, off, e)
+      else
+        match stepS MIN MAX base neg cutoff cutlim st d with
+        | none => none
+        | some st' =>
+          match rest with
+          | [] => none
+          | b :: rest' => loopSe MIN MAX base neg cutoff cutlim lp rest' (rd lp b) (off + 1) st' (errS neg cutoff cutlim st d e)
+
+/-- strtoll.c with `errno` -/
+def strtoLLe (w : Nat) (R : Reads) (mem : List Byte) (base : Nat) : Option (Int × Nat × Nat) :=
+  match front R mem base with
+  | none => none
+  | some f =>
+    let MAX : Int := 2 ^ (w - 1) - 1
+    let MIN : Int := -(2 ^ (w - 1))
+    let b : Int := f.base
+    let cutoff0 : Int := if f.neg then MIN else MAX
+    let cutlim0 := cutoff0.tmod b
+    let cutoff1 := cutoff0.tdiv b
+    let (cutoff, cutlim) :=
+      if f.neg then
+        let (co, cl) := if cutlim0 > 0 then (cutoff1 + 1, cutlim0 - b) else (cutoff1, cutlim0)
+        (co, -cl)
+      else (cutoff1, cutlim0)
+    match loopSe MIN MAX b f.neg cutoff cutlim R.lp f.rest f.c f.off (0, 0) 0 with
+    | none => none
+    | some (acc, any, off, err) => some (acc, endOff any off, err)
+
+def strtolE (w : Nat) := strtoSUe w readsL
+def strtoimaxE (w : Nat) := strtoSUe w readsL
+def strtoulE (w : Nat) := strtoUUe w readsUL
+def strtoumaxE (w : Nat) := strtoUUe w readsUL
+def strtollE (w : Nat) := strtoLLe w readsLL
+def strtoullE (w : Nat) := strtoULLe w readsLL
+
+/-- strtoll.c: `int64_t strtoq(…) { return ((int64_t) strtoll(nptr, endptr, base)); }`
+(`w` = width of `long long`; the conversion to `int64_t` keeps the low 64 bits) -/
+def strtoqE (w : Nat) (mem : List Byte) (base : Nat) : Option (Int × Nat × Nat) :=
+  (strtollE w mem base).map fun r => (asSigned 64 ((r.1 % 2 ^ 64).toNat), r.2.1, r.2.2)
+
+/-- strtoull.c: `uint64_t strtouq(…) { return ((uint64_t) strtoull(nptr, endptr, base)); }` -/
+def strtouqE (w : Nat) (mem : List Byte) (base : Nat) : Option (Nat × Nat × Nat) :=
+  (strtoullE w mem base).map fun r => (r.1 % 2 ^ 64, r.2.1, r.2.2)
+
+/-- compat/libc/include/stdlib.h: `static inline long long atoll(const char *nptr)
+{ return strtoll(nptr, 0, 10); }` -/
+def atoll (w : Nat) (mem : List Byte) : Option Int := (strtoll w mem 10).map (·.1)
+
+/-- rand.c `rand_r` (repaired: the product is formed in `unsigned long`):
+`*seedp = (unsigned int)(*seedp * 16546134871ul + 513585871) % (204814687);
+return (int)(*seedp) >> 1;` — the same recurrence as `rand`, on the caller's
+32-bit seed -/
+def randR (seed : Nat) : Nat × Int := let s := randSeed (seed % 2 ^ 32); (s, randOut s)
+
 /-! ## Specification: ISO/IEC 9899 7.22.1.4 (strtol family), 7.22.1.2 (atol) -/
 
 namespace Spec
@@ -525,6 +714,32 @@ def decimalValue (t : List Byte) : Int :=
   match parse t 10 with
   | none => 0
   | some s => if s.neg then -(s.mag : Int) else s.mag
+
+/-- ISO 7.22.1.4 ¶8: "If the correct value is outside the range of
+representable values, … the value of the macro ERANGE is stored in errno";
+nothing is stored otherwise (`0`).  Signed conversions. -/
+def signedErr (w : Nat) (p : Option Subject) : Nat :=
+  match p with
+  | none => 0
+  | some s =>
+    let v : Int := if s.neg then -(s.mag : Int) else s.mag
+    if v < -(2 ^ (w - 1)) ∨ 2 ^ (w - 1) - 1 < v then 34 else 0
+
+/-- unsigned conversions: the magnitude does not fit (with or without a minus sign) -/
+def unsignedErr (w : Nat) (p : Option Subject) : Nat :=
+  match p with
+  | none => 0
+  | some s => if s.mag > 2 ^ w - 1 then 34 else 0
+
+/-- what strtoul.c / strtoumax.c store: ISO's ERANGE, and additionally EINVAL
+when no conversion is performed (allowed by POSIX, not asked for by ISO C) -/
+def unsignedErrEinval (w : Nat) (p : Option Subject) : Nat :=
+  match p with
+  | none => 22
+  | some _ => unsignedErr w p
+
+/-- the first index whose element satisfies `p` (the length if none does) -/
+def firstIdx {α : Type} (p : α → Bool) (a : List α) : Nat := (a.takeWhile fun x => !p x).length
 
 end Spec
 
